@@ -236,6 +236,7 @@ func TestC09ConcurrentSameId(t *testing.T) {
 	col := stats.Get("C09.concurrent")
 	rapid.Check(t, func(t *rapid.T) {
 		sim.LogReset()
+		sim.CaseStart(t)
 		w := sim.NewWorld()
 		defer w.Close()
 		a := w.AddNode("alice")
